@@ -90,7 +90,8 @@ PROPS = {
              "unchanged (PropC06) + correspondence: hostile commands (every command name x arities x extreme arguments x key types) and raw byte streams on a "
              "victim connection while a bystander must be served within 1.5 s and the process must stay alive",
              partial="stack/heap limits of the Go runtime and loops inside the ~120 handlers are not modelled as Panic/Diverge sites; the handler side is covered by the hostile-input stream only",
-             assumptions=["a malformed line wedges only the connection that sent it (the emulator treats 'malformed' as 'incomplete'); this is recorded in PropC13.v as C13_malformed_head_wedges and is outside 'well-formed command'"]),
+             assumptions=["a malformed line wedges only the connection that sent it (the emulator treats 'malformed' as 'incomplete'); this is recorded in PropC13.v as C13_malformed_head_wedges and is outside 'well-formed command'"],
+             findings=["dict-table-blowup"]),
     "C02": P(["PropC02", "PropC02Lcs", "PropC02Fnum"], ["C02"],
              "string/counter commands: theorems on the model (overflow test = mathematical overflow, MSETNX all-or-nothing, GETRANGE/SETRANGE "
              "specifications, SET option table, decimal text round trip, errors leave the db unchanged) + correspondence of every reply and of the "
@@ -145,7 +146,7 @@ PROPS = {
     "C15": P(["PropC15"], ["C15"],
              "protocol versions: to2 emits only RESP2 types, is idempotent and equals the canonical down-conversion; HELLO 2/3 switch only the "
              "caller, other versions refused + correspondence of the same commands on RESP2 and RESP3 connections", assumptions=SEQ_ASSUME),
-    "C17": P(["PropC17"], ["C17"],
+    "C17": P(["PropC17"], ["C17", "C07"],
              "SCAN: the cursor walk of Dict.v (mirror of redisDict.go/dictScanUnlocked) returns every element present during a whole iteration "
              "for arbitrary table changes between calls, invents nothing, terminates + correspondence of table layout and SCAN/HSCAN/SSCAN replies",
              assumptions=["the hash function (SipHash) is not modelled: theorems hold for every hash function; the harness reads the real hashes through the verif accessor"]),
